@@ -265,6 +265,11 @@ pub fn exec_proj<S: Sc + BaseFloat + crate::machine::Exec>(op: &str, fm: &str, a
         // C08 with a small but not negligible scale (|s| > 1e-6) or a tiny non-zero determinant: the similarity
         // x -> s R x + d as a Matrix4 / Matrix3 / Matrix2 / Decomposed must still have an inverse that undoes it.
         // <<inverse exists ?, | inv(T(v)) - v | / |v| in eps, | inv(T(p)) - p | / (1 + |p|) in eps>>
+        ("tiny_inv_proj", [T(kind), N(sc), Q(q), V3(d), V3(v), I(dexp)]) => {
+            // the displacement scaled natively by 10^dexp (an ordinary far-away object)
+            let ten: S = NumCast::from(10.0f64).unwrap();
+            return exec_proj::<S>("tiny_inv_proj", fm, &[T(kind.clone()), N(*sc), Q(*q), V3(*d * ten.powi(*dexp as i32)), V3(*v)]);
+        }
         ("tiny_inv_proj", [T(kind), N(sc), Q(q), V3(d), V3(v)]) => {
             let rot3 = Matrix3::from(*q);
             let pt = Point3::from_vec(*v);
@@ -352,6 +357,29 @@ pub fn exec_proj<S: Sc + BaseFloat + crate::machine::Exec>(op: &str, fm: &str, a
                     Some(i) => { let c = maxabs(&fl(&m2v(&mk))) * maxabs(&fl(&m2v(&i))) * 2.0; let (l, r) = (m2v(&(mk * i)), m2v(&(i * mk)));
                         (fl(&m2v(&Matrix2::identity())).iter().chain(fl(&m2v(&Matrix2::identity())).iter()).cloned().collect(), fl(&l).iter().chain(fl(&r).iter()).cloned().collect(), c, true) }
                     None => (vec![0.0], vec![0.0], 1.0, false) } }
+                // rows scaled by k, 1, 1/k (, 1): inv(R A) = inv(A) inv(R), column j of the inverse is divided by r_j; checked
+                // column by column, relative to the largest entry of that column (cofactor formulas are exact in the grading)
+                ("m2_inv_graded", [M2(m)]) => { let one = S::one(); let r = [ks, one / ks];
+                    let mut a = *m; for c in 0..2 { for i in 0..2 { a[c][i] = a[c][i] * r[i]; } }
+                    match (SquareMatrix::invert(m), SquareMatrix::invert(&a)) { (Some(i0), Some(i1)) => {
+                        let cnd = maxabs(&fl(&m2v(m))) * maxabs(&fl(&m2v(&i0))) * 2.0; let mut d = 0.0f64;
+                        for j in 0..2 { let colmax = (0..2).map(|i| (f(i0[j][i]) / f(r[j])).abs()).fold(0.0f64, f64::max).max(1.0e-300);
+                            for i in 0..2 { d = d.max((f(i1[j][i]) - f(i0[j][i]) / f(r[j])).abs() / colmax); } }
+                        (vec![1.0], vec![1.0 + d], cnd, true) } (None, None) => (vec![0.0], vec![0.0], 1.0, true), _ => (vec![0.0], vec![0.0], 1.0, false) } }
+                ("m3_inv_graded", [M3(m)]) => { let one = S::one(); let r = [ks, one, one / ks];
+                    let mut a = *m; for c in 0..3 { for i in 0..3 { a[c][i] = a[c][i] * r[i]; } }
+                    match (SquareMatrix::invert(m), SquareMatrix::invert(&a)) { (Some(i0), Some(i1)) => {
+                        let cnd = maxabs(&fl(&m3v(m))) * maxabs(&fl(&m3v(&i0))) * 3.0; let mut d = 0.0f64;
+                        for j in 0..3 { let colmax = (0..3).map(|i| (f(i0[j][i]) / f(r[j])).abs()).fold(0.0f64, f64::max).max(1.0e-300);
+                            for i in 0..3 { d = d.max((f(i1[j][i]) - f(i0[j][i]) / f(r[j])).abs() / colmax); } }
+                        (vec![1.0], vec![1.0 + d], cnd, true) } (None, None) => (vec![0.0], vec![0.0], 1.0, true), _ => (vec![0.0], vec![0.0], 1.0, false) } }
+                ("m4_inv_graded", [M4(m)]) => { let one = S::one(); let r = [ks, one, one / ks, one];
+                    let mut a = *m; for c in 0..4 { for i in 0..4 { a[c][i] = a[c][i] * r[i]; } }
+                    match (SquareMatrix::invert(m), SquareMatrix::invert(&a)) { (Some(i0), Some(i1)) => {
+                        let cnd = maxabs(&fl(&m4v(m))) * maxabs(&fl(&m4v(&i0))) * 4.0; let mut d = 0.0f64;
+                        for j in 0..4 { let colmax = (0..4).map(|i| (f(i0[j][i]) / f(r[j])).abs()).fold(0.0f64, f64::max).max(1.0e-300);
+                            for i in 0..4 { d = d.max((f(i1[j][i]) - f(i0[j][i]) / f(r[j])).abs() / colmax); } }
+                        (vec![1.0], vec![1.0 + d], cnd, true) } (None, None) => (vec![0.0], vec![0.0], 1.0, true), _ => (vec![0.0], vec![0.0], 1.0, false) } }
                 ("m4_det", [M4(m)]) => (vec![f(m.determinant()) * k.powi(4)], vec![f((*m * ks).determinant())], 24.0, true),
                 ("m3_det", [M3(m)]) => (vec![f(m.determinant()) * k.powi(3)], vec![f((*m * ks).determinant())], 6.0, true),
                 ("m4_transform_point", [M4(m), P3(p)]) => { let (a, b) = (m.transform_point(*p), (*m * ks).transform_point(*p)); (vec![f(a.x), f(a.y), f(a.z)], vec![f(b.x), f(b.y), f(b.z)], 4.0, true) }
